@@ -37,6 +37,10 @@ ASSUMPTIONS = [
 VARS = ["Tgas", "T32", "invT", "Te", "invTe", "lnTe", "sqrTgas", "vt_a", "vtb2", "x_1", "user_crate"]
 RISKY_VARS = ["c1d2"]  # identifiers that look like d-exponent literals inside
 FUNCS = ["exp", "log", "log10", "sqrt", "dexp", "abs"]
+# Fortran is case-insensitive: EXP(x) is exp(x). (Mixed case such as Exp is refused by the translator's lexer, which the property allows.)
+FUNCS_UPPER = ["EXP", "LOG", "LOG10", "SQRT", "DEXP", "ABS"]
+# the double-precision specific names (dexp is in FUNCS: naunet names it; the others are the same family)
+FUNCS_DP = ["dlog", "dlog10", "dsqrt", "dabs"]
 SPECIES = {  # KROME idx token -> (alias suffix rule) expected alias
     "H": "HI", "D": "DI", "C": "CI", "O": "OI", "He": "HeI", "H2": "H2I", "CO": "COI", "H2O": "H2OI",
     "Hp": "HII", "Hm": "HM", "Cp": "CII", "H2p": "H2II", "Hep": "HeII", "Hepp": "HeIII", "E": "EM", "HD": "HDI",
@@ -65,7 +69,7 @@ def _tree(depth):
     def extend(children):
         return st.one_of(
             st.tuples(st.sampled_from(["+", "-", "*", "/", "**", "**"]), children, children).map(lambda t: ["bin", t[0], t[1], t[2]]),
-            st.tuples(st.sampled_from(FUNCS), children).map(lambda t: ["fn", t[0], t[1]]),
+            st.tuples(st.sampled_from(FUNCS * 4 + FUNCS_UPPER + FUNCS_DP), children).map(lambda t: ["fn", t[0], t[1]]),
             children.map(lambda c: ["par", c]),
         )
 
@@ -228,7 +232,13 @@ def compare_text(text, tree, seed, failures, labels, origin=""):
                 key = "abundance-ref/electron" if m.group(1) in ("IDX_EI", "IDX_E") else "abundance-ref/multi-char-name" if multi else "abundance-ref/other"
                 failures.append((f"krome/{key}", f"{origin}{text!r} -> {ctext!r}: {m.group(1)} is not the index macro of any species (expected IDX_<name><I..|M..>)"))
             else:
-                failures.append(("krome/identifier-changed", f"{origin}{text!r} -> {ctext!r}: {e}"))
+                mf = re.search(r"undeclared function '(\w+)'", str(e))
+                if mf and mf.group(1).lower() in FT.FUNCS:
+                    kind_ = "upper-case" if mf.group(1) != mf.group(1).lower() else "double-precision-name"
+                    failures.append((f"krome/intrinsic-not-translated/{kind_}", f"{origin}{text!r} -> {ctext!r}: the Fortran intrinsic {mf.group(1)} is emitted verbatim, "
+                                     f"which is not a C function ({e})"))
+                else:
+                    failures.append(("krome/identifier-changed", f"{origin}{text!r} -> {ctext!r}: {e}"))
             return "translated", ctext
         except CInvalidC as e:
             failures.append(("krome/invalid-c", f"{origin}{text!r} -> {ctext!r}: {e}"))
